@@ -178,3 +178,4 @@ MANIFEST["level_note"] += (" `c02_wellformed_tsig` / `c02_tsig_record` (Proofs/S
                            "also the responses signed in TsigMode::Response (BADTIME; verified request answered NOTIMP / REFUSED / SERVFAIL / FORMERR) "
                            "are well formed and end with the RFC 8945 TSIG record (MAC of the algorithm's output size = the MAC sign_response returns "
                            "for the octets before the record), for every verifier and every hmac returning an octet string of that size.")
+CHECK["theorems"] = list(CHECK["theorems"]) + ['c02_finish_signed_ok']
